@@ -21,7 +21,8 @@
 (*    destroyed / assigned over, nothing a wrapper owns survives Quiesce,  *)
 (*    and a reference wrapper never destroys its referent;                 *)
 (*  - no call copies the payload (only any_scheduler's documented copy     *)
-(*    operations do), moving a wrapper moves the payload at most     *)
+(*    operations do, and construct / assign from a const lvalue copies it  *)
+(*    exactly once), moving a wrapper moves the payload at most            *)
 (*    once and never when it is heap-stored (any_unique: never);           *)
 (*  - after a successful construct / assign the wrapped object lives in    *)
 (*    the wrapper iff size <= buffer /\ align <= buffer alignment /\       *)
